@@ -23,7 +23,7 @@ PROP = "C02"
 LEVEL = "exploration"
 ENGINE = "EP+XY"
 N = {"quick": 600, "thorough": 40000}
-TIME = {"quick": 50, "thorough": 540}
+TIME = {"quick": 300, "thorough": 540}
 RULE = ("Twin runs. Stream S and S' = S with the VALUES (prices, payloads, table cells) of everything stamped after a cut perturbed, "
         "timestamps and insertion order untouched; a fixed pre-drawn action sequence. Per call the digest of (observation incl. a "
         "feature with memory, reward, done, executed trades with bid/ask, holdings, NLV, track-record length, the recording "
